@@ -62,3 +62,60 @@ Proof.
     destruct (calipers_eq_bruteforce V mx mq (hull_strictly_convex S V HS ltac:(lia)) E) as [M B].
     split; [exact M|]. split; [intros H; lia|]. intros _. exact B.
 Qed.
+
+(* ---------------------------------------------------------------- with polygon_in_disc: about S itself *)
+From Centro Require Import Proofs.PolygonDiscC13 Proofs.FeretProofs.
+
+Theorem mec_end_to_end_full ijv indexes r :
+  NoDup indexes -> (r < length indexes)%nat -> nonneg_rows ijv ->
+  let S := pts_of ijv (nth r indexes 0) in
+  let res := nth r (mec_rows (fst (convex_hull_ijv ijv indexes))) (chrystal []) in
+  (S = [] -> res = CEmpty) /\
+  (S <> [] -> exists ny nx d rn,
+      res = CCircle ny nx d rn /\
+      MEC S (inject_Z ny / inject_Z d) (inject_Z nx / inject_Z d) (inject_Z rn / inject_Z (d * d))).
+Proof.
+  intros ND Hr Hnn S res. destruct (mec_end_to_end ijv indexes r ND Hr Hnn) as [HS [He Hc]].
+  split; [exact He|]. intros NE. destruct (Hc NE) as [ny [nx [d [rn [E [M Min]]]]]].
+  exists ny, nx, d, rn. split; [exact E|]. split; [|exact Min].
+  apply (polygon_in_disc _ _ _ _ _ HS). exact (proj1 M).
+Qed.
+
+Lemma d2q_sdist2 (p c : Z * Z) : (d2q p (inject_Z (fst c)) (inject_Z (snd c)) == inject_Z (sdist2 p c))%Q.
+Proof.
+  unfold d2q, d2, sdist2. rewrite inject_Z_plus, !inject_Z_mult. unfold Zminus. rewrite !inject_Z_plus, !inject_Z_opp. ring.
+Qed.
+
+(* the farthest pair of pixels of S is a pair of hull vertices *)
+Theorem max_d2_hull S V : HullSpec S V -> max_d2 V = max_d2 S.
+Proof.
+  intros HS. destruct (feret_max_spec S) as [US AS]. destruct (feret_max_spec V) as [UV AV].
+  destruct V as [|v0 V'] eqn:EV.
+  - rewrite (hs_empty _ _ HS eq_refl). reflexivity.
+  - rewrite <- EV in *. assert (NV : V <> []) by (rewrite EV; discriminate).
+    assert (NS : S <> []).
+    { intro E. assert (In v0 S) by (apply (hs_subset _ _ HS); rewrite EV; left; reflexivity). rewrite E in H. destruct H. }
+    apply Z.le_antisymm.
+    + destruct (AV NV) as [p [q [Ip [Iq E]]]]. rewrite <- E. apply US; apply (hs_subset _ _ HS); assumption.
+    + destruct (AS NS) as [p [q [Ip [Iq E]]]]. rewrite <- E.
+      (* every vertex is within max_d2 V of every vertex; hence of every pixel; hence every pixel of every pixel *)
+      assert (Step : forall c, (forall v, In v V -> sdist2 v c <= max_d2 V) -> forall s, In s S -> sdist2 s c <= max_d2 V).
+      { intros c Hc s Hs.
+        assert (En : Encloses V (inject_Z (fst c)) (inject_Z (snd c)) (inject_Z (max_d2 V))).
+        { intros v Hv. rewrite d2q_sdist2. rewrite <- Zle_Qle. apply Hc, Hv. }
+        pose proof (polygon_in_disc S V _ _ _ HS En s Hs) as L. rewrite d2q_sdist2 in L. rewrite <- Zle_Qle in L. exact L. }
+      assert (Sym : forall a b, sdist2 a b = sdist2 b a) by (intros a b; unfold sdist2; ring).
+      assert (VS : forall v, In v V -> forall s, In s S -> sdist2 s v <= max_d2 V).
+      { intros v Hv. apply Step. intros v' Hv'. apply UV; assumption. }
+      apply (Step q); [|exact Ip]. intros v Hv. rewrite Sym. apply (VS v Hv q Iq).
+Qed.
+
+Theorem feret_end_to_end_max ijv indexes r :
+  NoDup indexes -> (r < length indexes)%nat -> nonneg_rows ijv ->
+  let S := pts_of ijv (nth r indexes 0) in
+  exists mx mq, nth r (feret_rows (fst (convex_hull_ijv ijv indexes))) (sweep []) = Some (mx, mq) /\
+                mx = max_d2 S.
+Proof.
+  intros ND Hr Hnn S. destruct (feret_end_to_end ijv indexes r ND Hr Hnn) as [HS [mx [mq [E [M _]]]]].
+  exists mx, mq. split; [exact E|]. rewrite M. apply (max_d2_hull _ _ HS).
+Qed.
